@@ -2,7 +2,10 @@
    Property theorems only.  Models: Model/GetNBest.v, Model/HighestAverages.v, Model/Condorcet.v,
    Model/QuotaDistributor.v, Model/STV.v; proofs: Proofs/Scale_proofs.v, Proofs/Minimax_proofs.v, Proofs/LRScale_proofs.v,
    Proofs/STVScale_proofs.v, Proofs/Schulze_proofs.v.  All numbers are unbounded Z / Q: the statements quantify over
-   every positive scale factor and every magnitude (10^30 and 2^53 are not special). *)
+   every positive scale factor and every magnitude (10^30 and 2^53 are not special).
+   Third / fourth batch: Model/Threshold.v, Model/Conditioned.v, Model/Star.v, Model/Hybrids.v, Model/Elimination.v,
+   Model/AllocScore.v, Model/PureProp.v; proofs: Proofs/ScaleThr_proofs.v, ScaleStar_proofs.v, ScaleHyb_proofs.v,
+   ScaleAlloc_proofs.v, ScalePP_proofs.v.  docs/C11.md maps every configuration of harness/evalreg.py to its theorem. *)
 From Coq Require Import ZArith QArith List Bool.
 From VL Require Import Prelude.PyDict Model.GetNBest Model.HighestAverages Model.Condorcet
      Proofs.GetNBest_proofs Proofs.QOrd Proofs.Scale_proofs Proofs.Minimax_proofs Proofs.LRScale_proofs Proofs.Schulze_proofs
@@ -11,6 +14,8 @@ From VL Require Model.Convert Model.STV Proofs.STVScale_proofs.
 From VL Require Proofs.SchwartzInv_proofs.
 From VL Require Prelude.Sx Prelude.GDict Model.Bucklin Model.Cardinal Proofs.Scale2_proofs Proofs.Scale2Add_proofs Proofs.Scale2Bucklin_proofs
      Proofs.Scale2PAV_proofs Proofs.Scale2Score_proofs Proofs.Scale2MJ_proofs Proofs.Scale2Complete_proofs.
+From VL Require Model.Threshold Model.Conditioned Model.Star Proofs.ScaleThr_proofs Proofs.ScaleStar_proofs.
+From VL Require Model.Hybrids Model.Elimination Model.AllocScore Model.PureProp Proofs.ScaleHyb_proofs Proofs.ScaleAlloc_proofs Proofs.ScalePP_proofs.
 Import ListNotations.
 
 (* plurality / every rule that ends in get_n_best of exact totals *)
@@ -503,6 +508,326 @@ Proof.
     [repeat constructor; cbn; intuition discriminate|cbn; intuition]|]). destruct Hin.
 Qed.
 
+(* ================================================================ third batch: the threshold family and STAR *)
+(* ---- seatless threshold selectors (Model/Threshold.v).  A RELATIVE threshold compares the share v / total with its
+   fraction: scale-free.  An ABSOLUTE threshold compares v with a number of votes: it scales WITH its line
+   (the k-fold electorate measured against the k-fold line), and is not scale-free when the line is kept.
+   AlternativeThresholds (any nesting) inherit both facts: [sel_scale k] multiplies every absolute line by k. *)
+Theorem C11_scale_relative_threshold : forall (k : Q) (t : Q) (ae : bool) (votes : list (C * Q)), (0 < k)%Q ->
+  Threshold.sel_eval (Threshold.SRel t ae) (scaleq k votes) = Threshold.sel_eval (Threshold.SRel t ae) votes.
+Proof.
+  intros k t ae votes Hk.
+  exact (ScaleThr_proofs.sel_eval_rel k Hk (Threshold.SRel t ae) _ _ (ScaleThr_proofs.vrel_scaleq k votes)).
+Qed.
+
+Theorem C11_scale_absolute_threshold : forall (k : Q) (t : Q) (ae : bool) (votes : list (C * Q)), (0 < k)%Q ->
+  Threshold.sel_eval (Threshold.SAbs (k * t) ae) (scaleq k votes) = Threshold.sel_eval (Threshold.SAbs t ae) votes.
+Proof.
+  intros k t ae votes Hk.
+  exact (ScaleThr_proofs.sel_eval_rel k Hk (Threshold.SAbs t ae) _ _ (ScaleThr_proofs.vrel_scaleq k votes)).
+Qed.
+
+Theorem C11_scale_threshold : forall (k : Q) (s : Threshold.sel) (votes : list (C * Q)), (0 < k)%Q ->
+  Threshold.sel_eval (ScaleThr_proofs.sel_scale k s) (scaleq k votes) = Threshold.sel_eval s votes.
+Proof. intros k s votes Hk. exact (ScaleThr_proofs.sel_eval_rel k Hk s _ _ (ScaleThr_proofs.vrel_scaleq k votes)). Qed.
+
+(* a selector built from relative thresholds only (any nesting of AlternativeThresholds) is scale-free as it is *)
+Theorem C11_scale_threshold_relative : forall (k : Q) (s : Threshold.sel) (votes : list (C * Q)), (0 < k)%Q ->
+  ScaleThr_proofs.sel_relative s = true ->
+  Threshold.sel_eval s (scaleq k votes) = Threshold.sel_eval s votes.
+Proof.
+  intros k s votes Hk Hs. exact (ScaleThr_proofs.sel_eval_relative_rel k Hk s _ _ Hs (ScaleThr_proofs.vrel_scaleq k votes)).
+Qed.
+
+(* an absolute threshold with the line KEPT is not scale-free (it is a number of votes, by its documentation):
+   3 votes against the line 5 fail, the doubled 6 votes pass *)
+Theorem C11_scale_absolute_threshold_kept_line_refuted : exists votes,
+  Threshold.sel_eval (Threshold.SAbs 5 true) votes = [1%positive] /\
+  Threshold.sel_eval (Threshold.SAbs 5 true) (scaleq 2 votes) = [1%positive; 2%positive].
+Proof. exists [(1%positive, 7%Q); (2%positive, 3%Q)]. vm_compute. split; reflexivity. Qed.
+
+(* the bracketers (CoalitionMemberBracketer, PropertyBracketer): every configured selector and the default scaled alike *)
+Theorem C11_scale_bracketer : forall (k : Q) evals default bracket (votes : list (C * Q)), (0 < k)%Q ->
+  Threshold.bracket_eval (ScaleThr_proofs.evals_scale k evals) (option_map (ScaleThr_proofs.sel_scale k) default) bracket (scaleq k votes)
+  = Threshold.bracket_eval evals default bracket votes.
+Proof.
+  intros k evals default bracket votes Hk.
+  exact (ScaleThr_proofs.bracket_eval_rel k Hk evals default bracket _ _ (ScaleThr_proofs.vrel_scaleq k votes)).
+Qed.
+
+(* ---- QuotaSelector (approval.py; Model/QuotaDistributor.v qsel_evaluate) with a homogeneous quota function - Hare,
+   Hagenbach-Bischoff, Imperiali -, both accept_equal settings, both on_more_over_quota policies, the refusal included *)
+Theorem C11_scale_quota_selector : forall (k : Q) (i : Z) accept_equal select (votes : list (C * Q)) n, (0 < k)%Q ->
+  homogeneous_quota i = true ->
+  qsel_evaluate (quota_fn (QNamed i)) accept_equal select (scaleq k votes) n
+  = qsel_evaluate (quota_fn (QNamed i)) accept_equal select votes n.
+Proof.
+  intros k i ae se votes n Hk Hi.
+  exact (ScaleThr_proofs.qsel_evaluate_rel k Hk _ ae se _ _ n (quota_fn_homog k i Hi) (ScaleThr_proofs.vrel_scaleq k votes)).
+Qed.
+
+(* any quota function that is homogeneous, and a CONSTANT quota scaled with the votes *)
+Theorem C11_scale_quota_selector_homogeneous : forall (k : Q) (quota : Q -> Z -> Q) accept_equal select (votes : list (C * Q)) n,
+  (0 < k)%Q -> (forall v v' m, (v' == k * v)%Q -> (quota v' m == k * quota v m)%Q) ->
+  qsel_evaluate quota accept_equal select (scaleq k votes) n = qsel_evaluate quota accept_equal select votes n.
+Proof.
+  intros k quota ae se votes n Hk Hq.
+  exact (ScaleThr_proofs.qsel_evaluate_rel k Hk quota ae se _ _ n Hq (ScaleThr_proofs.vrel_scaleq k votes)).
+Qed.
+
+Theorem C11_scale_quota_selector_constant : forall (k : Q) (q : Q) accept_equal select (votes : list (C * Q)) n, (0 < k)%Q ->
+  qsel_evaluate (quota_fn (QConst (k * q))) accept_equal select (scaleq k votes) n
+  = qsel_evaluate (quota_fn (QConst q)) accept_equal select votes n.
+Proof.
+  intros k q ae se votes n Hk.
+  apply (ScaleThr_proofs.qsel_evaluate_rel2 k Hk (quota_fn (QConst q)) (quota_fn (QConst (k * q))) ae se _ _ n);
+    [|exact (ScaleThr_proofs.vrel_scaleq k votes)].
+  intros v v' m _. unfold quota_fn, qsc. reflexivity.
+Qed.
+
+(* The ROUNDED quotas - hare_rounded 2, droop 3, hagenbach_bischoff_ceil 5, hagenbach_bischoff_rounded 6 - are not homogeneous
+   (quota (2 v) n is not 2 quota v n), and the selector with them is genuinely not scale-free.  The property's quantifier
+   names "exact quotas (hare, hagenbach_bischoff, imperiali)": for the rounded ones its scale clause does not apply - what
+   remains for them is the exactness of the comparison with the (rounded) quota, C11_tie_exact. *)
+Theorem C11_quota_rounded_not_homogeneous :
+  ~ (quota_fn (QNamed 2) (2 * 5) 2 == 2 * quota_fn (QNamed 2) 5 2)%Q /\
+  ~ (quota_fn (QNamed 3) (2 * 4) 2 == 2 * quota_fn (QNamed 3) 4 2)%Q /\
+  ~ (quota_fn (QNamed 5) (2 * 4) 2 == 2 * quota_fn (QNamed 5) 4 2)%Q /\
+  ~ (quota_fn (QNamed 6) (2 * 5) 1 == 2 * quota_fn (QNamed 6) 5 1)%Q.
+Proof. repeat split; vm_compute; discriminate. Qed.
+
+(* witnesses (the implementation returns the same pairs of answers): hare_rounded - A 1, B 1, C 2, three seats: quota
+   round(4/3) = 1, everybody is over it; doubled: round(8/3) = 3, only C is.  Droop, one seat, strict comparison - A 3, B 2:
+   quota 3, nobody strictly over; tripled: quota 8, A (9) is.  hagenbach_bischoff_ceil likewise with factor 2 (A 3 of 5:
+   ceil(5/2) = 3; 6 of 10: 5).  hagenbach_bischoff_rounded - A 1, B 1, C 2, two seats: quota round(4/3) = 1, C elected and
+   A, B tied for the second seat; doubled: round(8/3) = 3, only C. *)
+Theorem C11_scale_quota_selector_rounded_refuted :
+  (exists votes, qsel_evaluate (quota_fn (QNamed 2)) true true votes 3 = QS_ok [Cand 3%positive; Cand 1%positive; Cand 2%positive] /\
+                 qsel_evaluate (quota_fn (QNamed 2)) true true (scaleq 2 votes) 3 = QS_ok [Cand 3%positive]) /\
+  (exists votes, qsel_evaluate (quota_fn (QNamed 3)) false true votes 1 = QS_ok [] /\
+                 qsel_evaluate (quota_fn (QNamed 3)) false true (scaleq 3 votes) 1 = QS_ok [Cand 1%positive]) /\
+  (exists votes, qsel_evaluate (quota_fn (QNamed 5)) false true votes 1 = QS_ok [] /\
+                 qsel_evaluate (quota_fn (QNamed 5)) false true (scaleq 2 votes) 1 = QS_ok [Cand 1%positive]) /\
+  (exists votes, qsel_evaluate (quota_fn (QNamed 6)) true true votes 2 = QS_ok [Cand 3%positive; TieR [1%positive; 2%positive]] /\
+                 qsel_evaluate (quota_fn (QNamed 6)) true true (scaleq 2 votes) 2 = QS_ok [Cand 3%positive]).
+Proof.
+  split; [|split; [|split]].
+  - exists [(1%positive, 1%Q); (2%positive, 1%Q); (3%positive, 2%Q)]. vm_compute. split; reflexivity.
+  - exists [(1%positive, 3%Q); (2%positive, 2%Q)]. vm_compute. split; reflexivity.
+  - exists [(1%positive, 3%Q); (2%positive, 2%Q)]. vm_compute. split; reflexivity.
+  - exists [(1%positive, 1%Q); (2%positive, 1%Q); (3%positive, 2%Q)]. vm_compute. split; reflexivity.
+Qed.
+
+(* largest remainder with the rounded quotas is not scale-free either (registry entry lr_droop; the implementation
+   returns the same pairs): Droop - A 1, B 2, C 9, three seats: {B 1, C 2}, tripled {C 3}; hare_rounded - A 1, B 3, C 8, five
+   seats: {B 1, C 4}, doubled {A 1, B 1, C 3}; hagenbach_bischoff_ceil / _rounded - A 1, B 2, C 6, five seats:
+   {A 1, B 1, C 3}, doubled {B 1, C 4} *)
+Theorem C11_scale_largest_remainder_rounded_refuted :
+  (exists votes, lr_evaluate (quota_fn (QNamed 3)) true PError votes 3 [] [] = LR_ok [(K 3%positive, 2%Z); (K 2%positive, 1%Z)] /\
+                 lr_evaluate (quota_fn (QNamed 3)) true PError (scaleq 3 votes) 3 [] [] = LR_ok [(K 3%positive, 3%Z)]) /\
+  (exists votes, lr_evaluate (quota_fn (QNamed 2)) true PError votes 5 [] [] <> lr_evaluate (quota_fn (QNamed 2)) true PError (scaleq 2 votes) 5 [] []) /\
+  (exists votes, lr_evaluate (quota_fn (QNamed 5)) true PError votes 5 [] [] <> lr_evaluate (quota_fn (QNamed 5)) true PError (scaleq 2 votes) 5 [] []) /\
+  (exists votes, lr_evaluate (quota_fn (QNamed 6)) true PError votes 5 [] [] <> lr_evaluate (quota_fn (QNamed 6)) true PError (scaleq 2 votes) 5 [] []).
+Proof.
+  split; [|split; [|split]].
+  - exists [(1%positive, 1%Q); (2%positive, 2%Q); (3%positive, 9%Q)]. vm_compute. split; reflexivity.
+  - exists [(1%positive, 1%Q); (2%positive, 3%Q); (3%positive, 8%Q)]. vm_compute. discriminate.
+  - exists [(1%positive, 1%Q); (2%positive, 2%Q); (3%positive, 6%Q)]. vm_compute. discriminate.
+  - exists [(1%positive, 1%Q); (2%positive, 2%Q); (3%positive, 6%Q)]. vm_compute. discriminate.
+Qed.
+
+(* ---- Conditioned(threshold, highest averages) (Model/Conditioned.v): the composition - the eliminator returns the same
+   parties (C11_scale_threshold), the subsetted votes are the k-fold of the subsetted votes, highest averages over them is
+   scale-free (C11_scale_highest_averages); any selector, any divisor, previous gains and caps, the refusal of an empty
+   selection included *)
+Theorem C11_scale_conditioned_highest_averages : forall (k : Q) (s : Threshold.sel) (d : Z -> Q) (votes : list (C * Q)) n prev caps,
+  (0 < k)%Q ->
+  Conditioned.conditioned_ha (ScaleThr_proofs.sel_scale k s) d (scaleq k votes) n prev caps = Conditioned.conditioned_ha s d votes n prev caps.
+Proof. intros k s d votes n prev caps Hk. exact (ScaleThr_proofs.conditioned_ha_scale k Hk s d votes n prev caps). Qed.
+
+Corollary C11_scale_conditioned_relative : forall (k : Q) (s : Threshold.sel) (d : Z -> Q) (votes : list (C * Q)) n prev caps,
+  (0 < k)%Q -> ScaleThr_proofs.sel_relative s = true ->
+  Conditioned.conditioned_ha s d (scaleq k votes) n prev caps = Conditioned.conditioned_ha s d votes n prev caps.
+Proof.
+  intros k s d votes n prev caps Hk Hs. rewrite <- (ScaleThr_proofs.sel_scale_relative k s Hs) at 1.
+  apply C11_scale_conditioned_highest_averages, Hk.
+Qed.
+
+(* ---- ThresholdOpenList (Model/Threshold.v openlist_eval): the jump threshold is relative - a fraction of the list's total
+   and / or a homogeneous quota of it (take_higher either way) - so the candidates that jump, the cut by list order
+   (list_precedence) or by votes, and the fill-up from the list are the same *)
+Theorem C11_scale_open_list : forall (k : Q) (cfg : Threshold.ol_cfg) (votes : list (C * Q)) n lst, (0 < k)%Q ->
+  (forall qf, Threshold.ol_quota cfg = Some qf -> forall v v' m, (v' == k * v)%Q -> (qf v' m == k * qf v m)%Q) ->
+  Threshold.openlist_eval cfg (scaleq k votes) n lst = Threshold.openlist_eval cfg votes n lst.
+Proof.
+  intros k cfg votes n lst Hk Hq.
+  exact (ScaleThr_proofs.openlist_eval_rel k Hk cfg _ _ n lst Hq (ScaleThr_proofs.vrel_scaleq k votes)).
+Qed.
+
+(* the configurations the library can build: no quota, or a named homogeneous quota times quota_fraction *)
+Corollary C11_scale_open_list_named : forall (k : Q) jump (quota : option (Z * Q)) th ae lp (votes : list (C * Q)) n lst, (0 < k)%Q ->
+  (forall i fr, quota = Some (i, fr) -> homogeneous_quota i = true) ->
+  let cfg := Threshold.Build_ol_cfg jump (option_map (fun ifr : Z * Q => fun t s => (quota_fn (QNamed (fst ifr)) t s * snd ifr)%Q) quota) th ae lp in
+  Threshold.openlist_eval cfg (scaleq k votes) n lst = Threshold.openlist_eval cfg votes n lst.
+Proof.
+  intros k jump quota th ae lp votes n lst Hk Hq cfg. apply C11_scale_open_list; [exact Hk|].
+  intros qf Hqf v v' m Hv. unfold cfg in Hqf. cbn [Threshold.ol_quota] in Hqf.
+  destruct quota as [[i fr]|]; cbn [option_map fst snd] in Hqf; [|discriminate]. injection Hqf as <-.
+  pose proof (quota_fn_homog k i (Hq i fr eq_refl) v v' m Hv) as H. unfold qsc in H. change (quota_fn (QNamed i) v' m * fr == k * (quota_fn (QNamed i) v m * fr))%Q. rewrite H. ring.
+Qed.
+
+(* ---- STAR (Model/Star.v): score sums k-fold -> the same run-off members; run-off supports k-fold; Schulze over them is
+   scale-free (C11_scale_schulze).  Score profiles carry integer counts: the factor is a positive integer.  Every
+   iteration order of the candidate set, every number of seats, the error outcomes included. *)
+Theorem C11_scale_star : forall (k : Z) (votes : Cardinal.sprofile) order n, (0 < k)%Z ->
+  Star.star (map (fun bn => (fst bn, (k * snd bn)%Z)) votes) order n = Star.star votes order n.
+Proof. intros k votes order n Hk. exact (ScaleStar_proofs.star_scale k Hk votes order n). Qed.
+
+Theorem C11_scale_star_auto : forall (k : Z) (votes : Cardinal.sprofile) n, (0 < k)%Z ->
+  Star.star_auto (map (fun bn => (fst bn, (k * snd bn)%Z)) votes) n = Star.star_auto votes n.
+Proof. intros k votes n Hk. exact (ScaleStar_proofs.star_auto_scale k Hk votes n). Qed.
+
+Theorem C11_scale_star_pairwise : forall (k : Z) (votes : Cardinal.sprofile) members,
+  Star.star_pairwise (map (fun bn => (fst bn, (k * snd bn)%Z)) votes) members = scalez k (Star.star_pairwise votes members).
+Proof. intros k votes members. exact (ScaleStar_proofs.star_pairwise_scale k votes members). Qed.
+
+(* ---- non-vacuity of the third batch: a party exactly on the 5 % line (accept_equal both ways), one vote above and one vote
+   below it at 10^30 + 7; Conditioned(5 %, D'Hondt) over them; a quota selector with a party exactly on the Hare quota; an open
+   list whose jump threshold is the higher of 1/4 of the total and half a Hare quota; STAR whose run-off is decided against
+   the score sums (sums A 14, B 13, C 9: run-off A, B; B is preferred by 3 of 5 voters) at k = 7 *)
+Example C11_threshold_example :
+  let K := (1000000000000000000000000000007 # 1)%Q in
+  let votes : list (C * Q) := [(1%positive, 60); (2%positive, 5); (3%positive, 35)]%Q in
+  let above : list (C * Q) := [(1%positive, 60 * K); (2%positive, 5 * K + 1); (3%positive, 35 * K - 1)]%Q in
+  let below : list (C * Q) := [(1%positive, 60 * K); (2%positive, 5 * K - 1); (3%positive, 35 * K + 1)]%Q in
+  Threshold.sel_eval (Threshold.SRel (1 # 20) true) (scaleq K votes) = [1%positive; 3%positive; 2%positive] /\
+  Threshold.sel_eval (Threshold.SRel (1 # 20) false) (scaleq K votes) = [1%positive; 3%positive] /\
+  Threshold.sel_eval (Threshold.SRel (1 # 20) false) above = [1%positive; 3%positive; 2%positive] /\
+  Threshold.sel_eval (Threshold.SRel (1 # 20) true) below = [1%positive; 3%positive] /\
+  Conditioned.conditioned_ha (Threshold.SRel (1 # 20) false) (fun j => inject_Z (j + 1)) (scaleq K votes) 10 [] []
+    = HA_ok [(1%positive, 6%Z); (3%positive, 4%Z)] None /\
+  qsel_evaluate (quota_fn (QNamed 1)) true false (scaleq K [(1%positive, 50); (2%positive, 25); (3%positive, 25)]%Q) 4
+    = QS_ok [Cand 1%positive; Cand 2%positive; Cand 3%positive] /\
+  qsel_evaluate (quota_fn (QNamed 1)) false false (scaleq K [(1%positive, 50); (2%positive, 25); (3%positive, 25)]%Q) 4
+    = QS_ok [Cand 1%positive].
+Proof. vm_compute. repeat split; reflexivity. Qed.
+
+Example C11_open_list_example :
+  let K := (1000000000000000000000000000007 # 3)%Q in
+  let cfg := Threshold.Build_ol_cfg (Some (1 # 4)) (Some (fun t s => (hare t s * (1 # 2))%Q)) true true false in
+  let votes : list (C * Q) := [(1%positive, 10); (2%positive, 25); (3%positive, 40); (4%positive, 25)]%Q in
+  Threshold.openlist_eval cfg (scaleq K votes) 3 [1%positive; 2%positive; 3%positive; 4%positive] = [3%positive; 2%positive; 4%positive] /\
+  Threshold.openlist_eval cfg votes 3 [1%positive; 2%positive; 3%positive; 4%positive] = [3%positive; 2%positive; 4%positive] /\
+  Threshold.openlist_eval cfg (scaleq K votes) 4 [1%positive; 2%positive; 3%positive; 4%positive] = [3%positive; 2%positive; 4%positive; 1%positive].
+Proof. vm_compute. repeat split; reflexivity. Qed.
+
+Example C11_star_example :
+  let a := 1%positive in let b := 2%positive in let c := 3%positive in
+  let votes : Cardinal.sprofile := [([(a, 5); (b, 2); (c, 1)], 2%Z); ([(a, 1); (b, 3); (c, 2)], 2%Z); ([(a, 2); (b, 3); (c, 3)], 1%Z)]%Q in
+  Star.star_auto votes 1 = inl [Cand b] /\
+  Star.star_auto (map (fun bn : Convert.sballot * Z => (fst bn, (7 * snd bn)%Z)) votes) 1 = inl [Cand b] /\
+  Cardinal.score_voting Star.star_cfg votes 1 = inl [Cand a].
+Proof. vm_compute. repeat split; reflexivity. Qed.
+
+(* ================================================================ fourth batch: the rest of the registry (harness/evalreg.py) *)
+(* ---- RankedToCondorcetVotes in its pairwise-dictionary form (Model/Hybrids.v pairwise; integer ballot weights, positive
+   integer factor): the pairwise dictionary of the k-fold profile is the k-fold dictionary - same keys, same order.  With
+   the theorems about the evaluators on k-fold dictionaries this closes every composed entry "ranked votes ->
+   RankedToCondorcetVotes -> Condorcet evaluator" of the registry: *)
+Theorem C11_scale_ranked_to_condorcet : forall (k : Z) (votes : Hybrids.rvotes), (0 < k)%Z ->
+  Hybrids.pairwise (map (fun bn => (fst bn, (k * snd bn)%Z)) votes) = scalez k (Hybrids.pairwise votes).
+Proof. intros k votes Hk. exact (ScaleHyb_proofs.pairwise_scale k votes). Qed.
+
+Theorem C11_scale_ranked_condorcet_family : forall (k : Z) (votes : Hybrids.rvotes), (0 < k)%Z ->
+  let votes' := map (fun bn : Convert.ranked * Z => (fst bn, (k * snd bn)%Z)) votes in
+  condorcet_winner (Hybrids.pairwise votes') = condorcet_winner (Hybrids.pairwise votes) /\
+  (forall so n, copeland so (Hybrids.pairwise votes') n = copeland so (Hybrids.pairwise votes) n) /\
+  (forall ties, smith_schwartz (Hybrids.pairwise votes') ties = smith_schwartz (Hybrids.pairwise votes) ties) /\
+  (forall s n, minimax s (Hybrids.pairwise votes') n = minimax s (Hybrids.pairwise votes) n) /\
+  (forall n, schulze (Hybrids.pairwise votes') (candidates (Hybrids.pairwise votes')) n
+             = schulze (Hybrids.pairwise votes) (candidates (Hybrids.pairwise votes)) n) /\
+  (forall s n, ranked_pairs s (Hybrids.pairwise votes') n = ranked_pairs s (Hybrids.pairwise votes) n) /\
+  (forall n, kemeny (Hybrids.pairwise votes') n = kemeny (Hybrids.pairwise votes) n).
+Proof.
+  intros k votes Hk votes'. unfold votes'. rewrite (C11_scale_ranked_to_condorcet k votes Hk).
+  split; [apply C11_scale_condorcet_winner, Hk|]. split; [intros; apply C11_scale_copeland, Hk|].
+  split; [intros; apply C11_scale_smith_schwartz, Hk|]. split; [intros; apply C11_scale_minimax, Hk|].
+  split; [intros; rewrite (candidates_scale k); apply C11_scale_schulze, Hk|].
+  split; [intros; apply C11_scale_ranked_pairs, Hk|intros; apply C11_scale_kemeny, Hk].
+Qed.
+
+(* ---- the Condorcet-runoff hybrids (Model/Hybrids.v) and the positional elimination (Model/Elimination.v): Benham,
+   Tideman's alternative, Baldwin with any rank scorer - every elimination round, the merging of ballots that become equal,
+   every refusal and error outcome; both readings of the elimination step ([fx]) *)
+Theorem C11_scale_benham : forall (k : Z) fx (votes : Hybrids.rvotes), (0 < k)%Z ->
+  Hybrids.benham fx (map (fun bn => (fst bn, (k * snd bn)%Z)) votes) = Hybrids.benham fx votes.
+Proof. intros k fx votes Hk. exact (ScaleHyb_proofs.benham_scale k Hk fx votes). Qed.
+
+Theorem C11_scale_tideman_alternative : forall (k : Z) fx (votes : Hybrids.rvotes) n, (0 < k)%Z ->
+  Hybrids.tideman_alt fx (map (fun bn => (fst bn, (k * snd bn)%Z)) votes) n = Hybrids.tideman_alt fx votes n.
+Proof. intros k fx votes n Hk. exact (ScaleHyb_proofs.tideman_alt_scale k Hk fx votes n). Qed.
+
+Theorem C11_scale_baldwin : forall (k : Z) (sc : Convert.scorer) (votes : Hybrids.rvotes) n, (0 < k)%Z ->
+  Elimination.baldwin sc (map (fun bn => (fst bn, (k * snd bn)%Z)) votes) n = Elimination.baldwin sc votes n.
+Proof. intros k sc votes n Hk. exact (ScaleHyb_proofs.baldwin_scale k Hk sc votes n). Qed.
+
+Theorem C11_scale_eliminate_one : forall (k : Z) (votes : Hybrids.rvotes), (0 < k)%Z ->
+  Hybrids.eliminate_one (map (fun bn => (fst bn, (k * snd bn)%Z)) votes) = Hybrids.eliminate_one votes.
+Proof. intros k votes Hk. exact (ScaleHyb_proofs.eliminate_one_scale k Hk votes). Qed.
+
+(* ---- allocated score voting (Model/AllocScore.v; ballot weights are rationals, any positive rational factor): a homogeneous
+   named quota (Hare, Hagenbach-Bischoff, Imperiali) or a constant quota scaled with the votes; the distributor with previous
+   gains and maxima, and the selector; every iteration order of the tied sets, every error outcome *)
+Theorem C11_scale_allocated_score_distributor : forall (k : Q) (q : Quota.quota_spec) orders (votes : AllocScore.wprofile) n prev mx,
+  (0 < k)%Q -> ScaleAlloc_proofs.qspec_homog q = true ->
+  AllocScore.alloc_distribute (ScaleAlloc_proofs.qspec_scale k q) orders (map (fun bw => (fst bw, (k * snd bw)%Q)) votes) n prev mx
+  = AllocScore.alloc_distribute q orders votes n prev mx.
+Proof.
+  intros k q orders votes n prev mx Hk Hq.
+  exact (ScaleAlloc_proofs.alloc_distribute_rel k Hk q orders _ _ n prev mx Hq (ScaleAlloc_proofs.wprel_scale k votes)).
+Qed.
+
+Theorem C11_scale_allocated_score : forall (k : Q) (i : Z) orders (votes : AllocScore.wprofile) n, (0 < k)%Q ->
+  homogeneous_quota i = true ->
+  AllocScore.alloc_select (QNamed i) orders (map (fun bw => (fst bw, (k * snd bw)%Q)) votes) n
+  = AllocScore.alloc_select (QNamed i) orders votes n.
+Proof.
+  intros k i orders votes n Hk Hi.
+  exact (ScaleAlloc_proofs.alloc_select_rel k Hk (QNamed i) orders _ _ n Hi (ScaleAlloc_proofs.wprel_scale k votes)).
+Qed.
+
+(* ---- PureProportionality (Model/PureProp.v): the fractional seats are shares of the house; previous gains as floors and
+   maxima as ceilings, the ZeroDivisionError included *)
+Theorem C11_scale_pure_proportionality : forall (k : Q) (votes : list (C * Q)) n prev caps, (0 < k)%Q ->
+  PureProp.pp_evaluate (scaleq k votes) n prev caps = PureProp.pp_evaluate votes n prev caps.
+Proof. intros k votes n prev caps Hk. exact (ScalePP_proofs.pp_evaluate_scale k Hk votes n prev caps). Qed.
+
+(* ---- non-vacuity of the fourth batch.  Benham: a three-way cycle, no Condorcet winner, the plurality loser C goes and A beats
+   B; Baldwin (Borda) eliminates two rounds; both at k = 10^30 + 7.  Allocated score, two seats, Hare quota, at (10^30 + 7) / 3:
+   the strongest supporters of the first winner are spread out.  Pure proportionality of 7 seats over 1 : 2 : 4 with a maximum
+   of 3 for the largest party, at (10^30 + 7) / 3: 4/3, 8/3, 3. *)
+Example C11_hybrids_example :
+  let a := 1%positive in let b := 2%positive in let c := 3%positive in
+  let K := 1000000000000000000000000000007%Z in
+  let votes : Hybrids.rvotes := [([Convert.IP a; Convert.IP b; Convert.IP c], 4%Z); ([Convert.IP b; Convert.IP c; Convert.IP a], 3%Z);
+                                 ([Convert.IP c; Convert.IP a; Convert.IP b], 2%Z)] in
+  let votes' := map (fun bn : Convert.ranked * Z => (fst bn, (K * snd bn)%Z)) votes in
+  condorcet_winner (Hybrids.pairwise votes) = [] /\
+  Hybrids.benham true votes' = Hybrids.H_ok [Cand a] /\ Hybrids.benham true votes = Hybrids.H_ok [Cand a] /\
+  Hybrids.tideman_alt true votes' 1 = Hybrids.H_ok [Cand a] /\
+  Elimination.baldwin (Convert.Borda 0) votes' 1 = Elimination.B_ok [Cand a] /\
+  Elimination.baldwin (Convert.Borda 0) votes 1 = Elimination.B_ok [Cand a].
+Proof. vm_compute. repeat split; reflexivity. Qed.
+
+Example C11_allocated_pure_example :
+  let a := 1%positive in let b := 2%positive in let c := 3%positive in
+  let K := (1000000000000000000000000000007 # 3)%Q in
+  let votes : AllocScore.wprofile := [([(a, 5); (b, 1); (c, 0)], 4); ([(a, 3); (b, 4); (c, 1)], 3); ([(a, 0); (b, 2); (c, 5)], 3)]%Q in
+  AllocScore.alloc_select (QNamed 1) [] (map (fun bw : Convert.sballot * Q => (fst bw, (K * snd bw)%Q)) votes) 2 = inl [Cand a; Cand c] /\
+  AllocScore.alloc_select (QNamed 1) [] votes 2 = inl [Cand a; Cand c] /\
+  PureProp.pp_evaluate (scaleq K [(a, 1); (b, 2); (c, 4)]%Q) 7 [] [(c, 3%Z)] = PureProp.PP_ok [(c, 3); (a, 4 # 3); (b, 8 # 3)]%Q.
+Proof. vm_compute. repeat split; reflexivity. Qed.
+
 Print Assumptions C11_scale_plurality.
 Print Assumptions C11_scale_highest_averages.
 Print Assumptions C11_scale_pairwise_wins.
@@ -547,3 +872,31 @@ Print Assumptions C11_scale_mj_default_reduction.
 Print Assumptions C11_scale_mj_default_partial_ballots_refuted.
 Print Assumptions C11_scale_mj_default_balanced.
 Print Assumptions C11_scale_mj_default_full.
+Print Assumptions C11_scale_relative_threshold.
+Print Assumptions C11_scale_absolute_threshold.
+Print Assumptions C11_scale_threshold.
+Print Assumptions C11_scale_threshold_relative.
+Print Assumptions C11_scale_absolute_threshold_kept_line_refuted.
+Print Assumptions C11_scale_bracketer.
+Print Assumptions C11_scale_quota_selector.
+Print Assumptions C11_scale_quota_selector_homogeneous.
+Print Assumptions C11_scale_quota_selector_constant.
+Print Assumptions C11_quota_rounded_not_homogeneous.
+Print Assumptions C11_scale_quota_selector_rounded_refuted.
+Print Assumptions C11_scale_largest_remainder_rounded_refuted.
+Print Assumptions C11_scale_conditioned_highest_averages.
+Print Assumptions C11_scale_conditioned_relative.
+Print Assumptions C11_scale_open_list.
+Print Assumptions C11_scale_open_list_named.
+Print Assumptions C11_scale_star.
+Print Assumptions C11_scale_star_auto.
+Print Assumptions C11_scale_star_pairwise.
+Print Assumptions C11_scale_ranked_to_condorcet.
+Print Assumptions C11_scale_ranked_condorcet_family.
+Print Assumptions C11_scale_benham.
+Print Assumptions C11_scale_tideman_alternative.
+Print Assumptions C11_scale_baldwin.
+Print Assumptions C11_scale_eliminate_one.
+Print Assumptions C11_scale_allocated_score_distributor.
+Print Assumptions C11_scale_allocated_score.
+Print Assumptions C11_scale_pure_proportionality.
